@@ -175,6 +175,8 @@ class C19(Check):
             w = subscribe(rx.from_(objs).pipe(J.dump_to_file(path, compression=comp)), Snap())
             if w.err is not None or not w.done:
                 return out.fail('dump_to_file-failed', error=repr(w.err), done=w.done)
+            if not os.path.exists(path):
+                return out.fail('dump_to_file-completed-without-creating-the-file', objects=len(objs), compression=comp)
             size = os.path.getsize(path)
             got = subscribe(J.load_from_file(path, lines=False, compression=comp), Snap())
             out.tags.append('whole-document')
@@ -184,9 +186,16 @@ class C19(Check):
                 path = os.path.join(self._tmpdir(), 'f.json')
                 if os.path.exists(path):
                     os.unlink(path)
+                if case['objs']['oseed'] % 2:
+                    # the target already exists (an earlier dump): it must be replaced, not appended to or kept
+                    with open(path, 'wb') as f0:
+                        f0.write(b'{"stale": true}\n' * 3)
+                    out.tags.append('overwrites-existing-file')
                 w = subscribe(rx.from_(objs).pipe(J.dump_to_file(path, compression=comp)), Snap())
                 if w.err is not None or not w.done:
                     return out.fail('dump_to_file-failed', error=repr(w.err), done=w.done)
+                if not os.path.exists(path):
+                    return out.fail('dump_to_file-completed-without-creating-the-file', objects=len(objs), compression=comp)
                 size = os.path.getsize(path)
                 got = subscribe(J.load_from_file(path, compression=comp), Snap())
             elif mode == 'fileobj':
